@@ -261,7 +261,7 @@ func TestCheck(t *testing.T) {
 	run := ev.Start("C05", "a case is one block boundary of a token-heavy generated history: all conservation laws (NEO = 100M = stored supply = sum of balances; GAS supply = sum of balances; candidate votes = NEO of its voters; voters count; Notary GAS = sum of deposits; no negative balance; per-account balance change = net Transfer events of HALTed executions incl. OnPersist/PostPersist) are evaluated from contract storage and execution results; distinct by (history, height); non-trivial if the block contained a transaction")
 	defer run.Finish()
 	run.Assume("accounts are those the generator creates (tens); storage decoded with the repository's own state types")
-	nh := ev.Pick(14, 120)
+	nh := ev.Pick(14, 360)
 	nb := ev.Pick(120, 250)
 	w := vchain.DefaultWeights
 	w.GasTransfer, w.NeoTransfer, w.Vote, w.Candidate, w.Notary, w.Payment, w.Fault, w.NotaryAssisted, w.Role = 14, 16, 16, 8, 12, 10, 8, 12, 4
